@@ -1,0 +1,80 @@
+//go:build verif
+
+// Contracts for the SQL persister (comment-only; build tag verif). The database and
+// pop/popx are assumed (T6 in /verif/DESIGN.md, /verif/contracts/trusted/pop.spec).
+
+package sql
+
+//@ ghost netid(int, iface) uuid.UUID
+//@ spec wfquery(rq *relationtuple.RelationQuery) bool = rq != nil && (rq.Subject == nil || wfsubject(rq.Subject))
+
+//@ func (*Persister).NetworkID
+//@   trusted
+//@   pure
+//@   ensures result == netid(p, ctx)
+
+//@ func (*Persister).Connection
+//@   trusted
+//@   pure
+//@   ensures result != nil
+
+//@ func dependencies.Tracer
+//@   trusted
+//@   pure
+//@   ensures result != nil
+
+// ---- C06: every pop query on keto_relation_tuples starts from queryWithNetwork
+//@ func (*Persister).queryWithNetwork
+//@   props C06
+//@   modifies nothing
+//@   requires p != nil
+//@   ensures result != nil && fresh(result) && qnidset(result) && qnid(result) == netid(p, ctx)
+//@   ensures !qafterset(result) && !qordered(result) && qlimit(result) == -1 && !qraw(result)
+
+//@ func (*Persister).whereSubject
+//@   props C06 C07
+//@   requires q != nil && (sub == nil || wfsubject(sub))
+//@   modifies qafterset(q), qafter(q)
+//@   ensures qafterset(q) == old(qafterset(q)) && qafter(q) == old(qafter(q))
+
+//@ func (*Persister).whereQuery
+//@   props C06 C07
+//@   requires q != nil && wfquery(rq)
+//@   modifies qafterset(q), qafter(q)
+//@   ensures qafterset(q) == old(qafterset(q)) && qafter(q) == old(qafter(q))
+
+// ---- C07: keyset pagination
+//@ func internalPaginationFromOptions
+//@   props C07
+//@   modifies nothing
+//@   ensures result0 != nil && fresh(result0)
+//@   ensures[C07] page-size: result0.PerPage == (optsize(opts) == 0 ? 100 : optsize(opts)) && result0.PerPage >= 1
+//@   ensures[C07] first-page: opttoken(opts) == "" ==> result1 == nil && result0.LastID == uuid.Nil
+
+//@ func (*RelationTuple).ToInternal
+//@   props C07
+//@   modifies nothing
+//@   ensures r != nil ==> result0 != nil && fresh(result0) && result1 == nil
+
+//@ func (*Persister).GetRelationTuples
+//@   props C06 C07
+//@   requires p != nil && p.d != nil && wfquery(query) && ctx != nil
+//@   modifies db
+//@   ensures[C17] read-only: db == old(db)
+//@   ensures[C07] page-bound: err == nil ==> len(result0) <= pagination.PerPage && len(result0) == min(qrows(sqlQuery), pagination.PerPage)
+//@   ensures[C07] token-iff-more: err == nil ==> (nextPageToken == "" <==> qrows(sqlQuery) <= pagination.PerPage)
+//@   ensures[C07] token-is-last-key: err == nil && nextPageToken != "" ==> nextPageToken == uuidstr(res[len(res)-1].ID) && len(res) == pagination.PerPage
+//@   ensures[C07] keyset-shape: err == nil ==> qlimit(sqlQuery) == pagination.PerPage + 1 && qordered(sqlQuery) && qafterset(sqlQuery) && qafter(sqlQuery) == pagination.LastID
+//@   ensures[C06] nid: err == nil ==> qnidset(sqlQuery) && qnid(sqlQuery) == netid(p, now(ctx))
+//@   ensures err == nil ==> forall i in 0..len(result0) :: result0[i] != nil
+//@   loop 1 invariant len(internalRes) == $n && (isnil(internalRes) || fresh(internalRes)) && (forall j in 0..len(internalRes) :: internalRes[j] != nil)
+
+//@ func (*Persister).ExistsRelationTuples
+//@   props C06
+//@   requires p != nil && p.d != nil && wfquery(query) && ctx != nil
+//@   modifies db
+//@   ensures[C17] read-only: db == old(db)
+
+//@ func (*Persister).DeleteAllRelationTuples$1
+//@   props C06
+//@   requires p != nil && wfquery(query)
